@@ -23,7 +23,7 @@ RULE = ("(a) a battery of several hundred queries over notes, intervals, keys, c
         "class defaults must be unchanged; copies of notes and containers are operated on in both directions. Non-trivial: a history "
         "that mutates a returned list and later queries the same function; a call with a non-empty mutable argument; a script with "
         ">= 2 mutating operations."
-        ' Also: the battery contains every public function of the theory modules (introspection), confusable neighbours and keyword forms; histories repeat a query before modifying its last answer; every memo table that is empty at import is cleared per case; a systematic pass modifies the answer of each battery query and re-asks its neighbourhood; fft.find_notes call sequences whose returned notes are modified between calls; in-place edits of the lists / dictionaries that instances hold (incl. the percussion key map); frequency lookups at and above the top of the table; notes handed out by registered tunings are modified.')
+        ' Also: the battery contains every public function of the theory modules (introspection), confusable neighbours and keyword forms; histories repeat a query before modifying its last answer; every memo table that is empty at import is cleared per case; a systematic pass modifies the answer of each battery query and re-asks its neighbourhood; fft.find_notes call sequences whose returned notes are modified between calls; in-place edits of the lists / dictionaries that instances hold (incl. the percussion key map); frequency lookups at and above the top of the table; nested [name, octave(, dynamics)] items as arguments, compared deeply; notes handed out by registered tunings are modified.')
 ASSUMPTIONS = ["known memo tables are cleared at the start of every case so that a failing history replays from a cold start",
                "intervals.invert may reverse in place and back: the argument must be unchanged after the call",
                "Instrument.set_range and chords.from_shorthand's internal second parameter are outside the battery",
@@ -676,12 +676,19 @@ def sub_fft(ctx, shard, n):
 def sub_args(ctx, shard, n):
     names = st.sampled_from(T.unmixed_names(1) + ["C-4", "G#-3", "Bb-5"])
     notes = st.lists(names, min_size=0, max_size=7)
+    # the documented nested forms: [name, octave] and [name, octave, dynamics] items (compared deeply afterwards)
+    bare = st.sampled_from(T.unmixed_names(1))
+    item = names | st.tuples(bare, st.integers(0, 8)).map(list) | st.tuples(bare, st.integers(0, 8), st.fixed_dictionaries({"velocity": st.integers(0, 127)})).map(list)
+    nested = st.lists(item, min_size=1, max_size=5)
+    container_calls = ["NoteContainer", "NoteContainer.add_notes", "NoteContainer.remove_notes", "NoteContainer+", "Bar.place_notes", "Bar+", "Track.add_notes",
+                       "Track(Piano).add_notes", "Piano.can_play_notes", "Guitar.notes_in_range"]
     numerals = st.lists(st.sampled_from(["I", "ii", "III", "IV", "V7", "vi", "VII", "bII", "#IVdim", "Im7", "VIIdim7", "IM7", "viidim", "X"]), min_size=1, max_size=5)
     chord = st.sampled_from(["C", "Am", "G7", "F#dim", "Bbmaj7"]) | st.none()
     chordlist = st.lists(st.recursive(chord, lambda c: st.lists(c, min_size=1, max_size=3), max_leaves=5), min_size=1, max_size=4)
     dyn = st.dictionaries(st.sampled_from(["velocity", "channel", "volume", "x"]), st.integers(0, 15), max_size=3)
     strat = st.one_of(
         st.tuples(st.sampled_from(KIND["notes"]), notes), st.tuples(st.sampled_from(KIND["notes"]), notes),
+        st.tuples(st.sampled_from(container_calls), nested), st.tuples(st.sampled_from(KIND["notes"]), nested),
         st.tuples(st.sampled_from(KIND["numerals"]), numerals), st.tuples(st.sampled_from(KIND["chordlist"]), chordlist),
         st.tuples(st.sampled_from(KIND["dynamics"]), dyn), st.tuples(st.sampled_from(KIND["any"]), notes),
         st.tuples(st.sampled_from(KIND["samples"]), st.lists(st.integers(-2000, 2000), min_size=64, max_size=200)),
